@@ -65,3 +65,11 @@ Definition history_rc : list ev :=
    ok 0 (* checkpoint *); ok 0 (* discard *);
    EvCacheDrop 0 0].
 Definition world_rc : world := run toy_sha history_rc init.
+
+(* C17: the read-only date passes with one submitter pending: a log is created, started, one entry
+   is pending, RunSequencer returns SunsetLogError. *)
+Definition history_sunset : list ev :=
+  [EvClock 10; EvCreate 0 cfg1; ok 0; ok 0; ok 0; ok 0; ok 0;
+   EvStart 0 cfg1 None; ok 0; ok 0; ok 0;
+   EvSubmit 0 (ent x31) false 0 []].
+Definition world_sunset : world := run toy_sha history_sunset init.
